@@ -89,7 +89,7 @@ int Logger::operator()()
 
 		if (msg_ptr)
 		{
-			if (msg_ptr->_str.empty())  // means exit
+			if (msg_ptr->_exit)  // queued by stop(): means exit
 			{
 #if (FIX8_MPMC_SYSTEM == FIX8_MPMC_FF)
 				break;
